@@ -2,7 +2,8 @@
 
 Translated (fail-closed):
 * ``TrackedUser.add_flag`` / ``remove_flag``                      -> ``apply_add`` / ``apply_rem`` (flag arithmetic)
-* ``is_retry = request.flag == TrackingFlag(0)``                   -> ``is_retry_req``
+* ``is_retry = request.retry`` (or the older ``request.flag == TrackingFlag(0)``) -> ``is_retry_req flag marked``;
+  ``TrackingRequest.retry: bool = False`` and the unmarked construction in ``track_user`` / ``untrack_user`` are checked
 * the if / elif structure of ``UserTrackingManager._tracking_task`` after the dequeue: which of
   {cancel retry (awaited or not), RemoveUser, set UNTRACKED, exit (dropping the registry entry or not), AddUser attempt}
   happens, in source order, as a function of (previous flags, new flags, is_retry, queue empty) -> ``worker_decide``
@@ -127,7 +128,23 @@ def translate(src: Path) -> dict:
     if not head[3].startswith('is_retry = '):
         raise Refuse('_tracking_task: is_retry assignment changed')
     retry_expr = norm(w[3].value)
-    retry_tab = {'request.flag == TrackingFlag(0)': 'Nat.eqb flag 0'}
+    retry_tab = {'request.flag == TrackingFlag(0)': 'Nat.eqb flag 0', 'request.retry': 'marked'}
+    # TrackingRequest: the retry mark exists, is a bool and defaults to False (requests made by callers are unmarked)
+    trq = find_class(um, 'TrackingRequest')
+    fields = {}
+    for st_ in nodoc(trq.body):
+        if isinstance(st_, ast.AnnAssign) and isinstance(st_.target, ast.Name):
+            fields[st_.target.id] = (ast.unparse(st_.annotation), None if st_.value is None else ast.unparse(st_.value))
+        else:
+            raise Refuse('TrackingRequest: unexpected statement ' + norm(st_)[:80])
+    if retry_expr == 'request.retry' and fields.get('retry') != ('bool', 'False'):
+        raise Refuse(f'TrackingRequest.retry is not `bool = False`: {fields.get("retry")}')
+    if list(fields)[:2] != ['operation', 'flag']:
+        raise Refuse(f'TrackingRequest fields changed: {list(fields)}')
+    for fn_name, op in (('track_user', 'add_flag'), ('untrack_user', 'remove_flag')):
+        made = [norm(x) for x in ast.walk(find_func(utm.body, fn_name)) if isinstance(x, ast.Call) and norm(x.func) == 'TrackingRequest']
+        if made != [f'TrackingRequest(tracked_user.{op}, flag)']:
+            raise Refuse(f'{fn_name}: request construction changed: {made}')
     if retry_expr not in retry_tab:
         raise Refuse(f'_tracking_task: is_retry = {retry_expr}')
     decide = actions(w[4:])
@@ -137,7 +154,7 @@ def translate(src: Path) -> dict:
            'From Coq Require Import ZArith List Bool Arith.\nImport ListNotations.\n\n',
            '(* TrackedUser.add_flag / remove_flag *)\n',
            f'Definition apply_add (fl f : nat) : nat := {ops[add]}.\nDefinition apply_rem (fl f : nat) : nat := {ops[rem]}.\n\n',
-           '(* is_retry = ... *)\n', f'Definition is_retry_req (flag : nat) : bool := {retry_tab[retry_expr]}.\n\n',
+           '(* is_retry = ... *)\n', f'Definition is_retry_req (flag : nat) (marked : bool) : bool := {retry_tab[retry_expr]}.\n\n',
            '(* what the worker does with a dequeued request, in source order *)\n',
            'Inductive wact := WCancelRetry | WCancelRetryAwait | WRemoveUser | WSetUntracked | WExitDrop | WExit | WAttempt.\n',
            f'Definition worker_decide (prev new : nat) (retry qempty : bool) : list wact :=\n  {decide}.\n\n',
